@@ -302,7 +302,62 @@ fn stop_continue_one(ctx: &Ctx, prop: &str, script: &str, delay: u64) {
     }
 }
 
+/// Several children (and the parent) write to, or read from, one shared pipe end with payloads
+/// beyond the pipe capacity: every schedule must end with all processes finished and reaped and
+/// every byte accounted for (the would-block / wake-up machinery of each process sees the
+/// descriptor change under it while it is suspended).
+fn shared_pipe_slice(ctx: &Ctx) {
+    // (script, bytes the final consumer must count)
+    const SHAPES: [(&str, usize); 5] = [
+        ("{ gen 3000 1 & gen 3000 2; wait; probe k1 \"$?\"; } | sink total\nprobe k2 \"$?\"\n", 6000),
+        ("{ gen 3000 1 & gen 3000 2; } | sink total\nprobe k2 \"$?\"\n", 6000),
+        ("{ ( gen 2000 1 ) & ( gen 2000 4 ) & gen 2000 2; wait; probe k1 \"$?\"; } | sink total\nprobe k2 \"$?\"\n", 6000),
+        ("{ gen 1100 1 & gen 700 2 & gen 5000 3; wait; probe k1 \"$?\"; } | relay | sink total\nprobe k2 \"$?\"\n", 6800),
+        ("gen 6000 5 64 | { relay & relay; wait; probe k1 \"$?\"; } | sink total\nprobe k2 \"$?\"\n", 6000),
+    ];
+    let per = if ctx.quick() { 60 } else { 1500 };
+    ctx.par_for(
+        SHAPES.len() * per,
+        |i| {
+            let (script, total) = SHAPES[i / per];
+            let s = (i % per) as u64 + ctx.seed * 7919;
+            let strat = || if i % per == 0 { Strategy::Fifo } else { Strategy::Random { seed: s, preempt_pct: [0, 10, 30, 60][i % 4], max_preempt: 60 } };
+            let mut cfg = vsh::VCfg::script(script);
+            cfg.extra = vsh::v_probes();
+            cfg.strategy = strat();
+            let out = vsh::run_v(cfg);
+            ctx.eval();
+            ctx.count("shared_pipe_runs", 1);
+            let got: Vec<String> = out.events.iter().filter(|e| e.kind == "probe").map(|e| e.args.join(" ")).collect();
+            let ctxt = || format!("schedule {:?}\nscript:\n{script}events {got:?}\nend {:?}, shell status {:?}, zombies {:?}, alive {:?}\nstderr:\n{}", strat(), out.end, out.status, out.zombies, out.alive, out.err());
+            if out.end != vsh::End::Done {
+                ctx.violation("C13:shared-pipe:no-termination", ctxt());
+                return;
+            }
+            if !out.zombies.is_empty() || !out.alive.is_empty() {
+                ctx.violation("C13:shared-pipe:children-left", ctxt());
+                return;
+            }
+            let counted = out.events.iter().find(|e| e.kind == "probe" && e.args.first().map(|a| a.as_str()) == Some("total")).and_then(|e| e.args.get(1)).and_then(|n| n.parse::<usize>().ok());
+            let k_ok = out.events.iter().filter(|e| e.kind == "probe" && matches!(e.args.first().map(|a| a.as_str()), Some("k1" | "k2"))).all(|e| e.args.get(1).map(|a| a.as_str()) == Some("0"));
+            if counted != Some(total) || !k_ok || !out.events.iter().any(|e| e.args.first().map(|a| a.as_str()) == Some("k2")) {
+                ctx.violation("C13:shared-pipe:result", format!("expected {total} bytes at the consumer and status 0 at k1/k2\n{}", ctxt()));
+                return;
+            }
+            ctx.nontrivial(out.trace_hash ^ ((i / per) as u64) << 56);
+        },
+        |i, msg| {
+            if crate::util::panic_in_repo(&msg) {
+                ctx.violation(format!("C13:panic:{}", msg.split(": ").next().unwrap_or("")), format!("shared-pipe case {i}: {msg}"));
+            } else {
+                ctx.violation("harness-panic", format!("shared-pipe case {i}: {msg}"));
+            }
+        },
+    );
+}
+
 pub fn run(ctx: &Ctx) {
+    shared_pipe_slice(ctx);
     fork_fault_slice(ctx);
     stop_continue_slice(ctx, "C13");
     let quick = ctx.quick();
